@@ -15,6 +15,23 @@ def hexOfNats (l : List Nat) : String := hexOfBytes (l.map UInt8.ofNat)
 def entries (s : String) : Option (List (List String)) :=
   if s == "." then some [] else some ((s.splitOn ",").map (·.splitOn ":"))
 
+/-- tree ::= L <hex> | O <n> (<key hex> <keyJson hex> tree)^n   (tokens separated by spaces) -/
+partial def tree : List String → Option (JTree × List String)
+  | "L" :: t :: r => do let b ← nats t; pure (.leaf b, r)
+  | "O" :: n :: r => do
+    let n ← n.toNat?
+    let rec go : Nat → List String → Option (List (Key × Bytes × JTree) × List String)
+      | 0, r => some ([], r)
+      | m + 1, k :: kj :: r => do
+        let k ← nats k; let kj ← nats kj
+        let (v, r) ← tree r
+        let (rest, r) ← go m r
+        pure ((k, kj, v) :: rest, r)
+      | _, _ => none
+    let (es, r) ← go n r
+    pure (es.foldr (fun e acc => JTree.ocons e.1 e.2.1 e.2.2 acc) .onil, r)
+  | _ => none
+
 def handle (op : String) (args : List String) : Option String :=
   match op, args with
   | "mapformat", [st, pre, vind, es] => do
@@ -35,6 +52,10 @@ def handle (op : String) (args : List String) : Option String :=
         pure (k, kj, vj)
       | _ => none
     pure (hexOfNats (jsonObject l) ++ " " ++ boolStr (nodupKeys l))
+  | "nested", [t] => do
+    match tree (t.splitOn " ") with
+    | some (t, []) => pure (hexOfNats t.emit ++ " " ++ boolStr t.wf)
+    | _ => none
   | "sortkeys", [ks] => do
     let ks ← parseHexList ks
     pure (hexList ((forkKeyParts (ks.map (·.map UInt8.toNat))).map (·.map UInt8.ofNat)))
